@@ -48,7 +48,7 @@ MUTS = (
        "outer_dup_pk", "outer_dup_enc", "outer_reorder", "key31", "key33", "zero_key", "enc_short",
        "inner_bit_sig", "inner_bit_id", "inner_byte_sig", "inner_drop_sig", "inner_drop_id", "inner_dup_id", "sig63", "sig65",
        "wrong_ltsk", "wrong_id_signed", "wrong_id_unsigned", "permute", "sign_other_key", "sign_truncated", "wrong_nonce", "wrong_kv", "replay_m2",
-       "trunc", "garbage_reply"]
+       "trunc", "garbage_reply", "foreign_key_embedded", "foreign_key_embedded", "foreign_key_embedded_other_type", "extra_inner_random", "genuine_plus_extra"]
 )
 RESUME_MUTS = [None, None, "resume_wrong_secret", "resume_wrong_sid", "resume_nonempty", "resume_bit_tag", "resume_bit_sid", "resume_drop_method", "resume_decline"]
 
@@ -90,6 +90,17 @@ def build_mut(kind, r: random.Random, ch: Chooser, rec_m2=None):
         return {"kind": "inner", "inner": {"kind": "setlen", "field": hap.T_SIG, "n": int(kind[3:])}}, None
     if kind == "wrong_ltsk":
         return {"kind": "wrong_ltsk", "ltsk": ch.nbytes("wrong_ltsk", 32)}, None
+    if kind in ("foreign_key_embedded", "foreign_key_embedded_other_type"):
+        # impostor signs the regular transcript with its own key and ships the matching public key inside the sub-TLV
+        ltsk = ch.nbytes("foreign_ltsk", 32)
+        t = hap.T_PUBKEY if kind == "foreign_key_embedded" else r.choice([hap.T_CERT, hap.T_PROOF, hap.T_SALT, hap.T_ENC, 0x0F, 0x20])
+        return {"kind": "wrong_ltsk", "ltsk": ltsk, "inner_extra": [(t, RC.ed_pub(ltsk))], "inner_extra_pos": r.choice([0, 1, 2])}, None
+    if kind == "extra_inner_random":
+        return {"kind": "wrong_ltsk", "ltsk": ch.nbytes("foreign_ltsk", 32),
+                "inner_extra": [(r.randrange(0, 16), ch.nbytes("extra", r.choice([0, 1, 32, 64]))) for _ in range(r.randrange(1, 4))], "inner_extra_pos": r.choice([0, 1, 2])}, None
+    if kind == "genuine_plus_extra":
+        # authentic reply that merely carries additional unknown items (must keep working: soundness only)
+        return {"kind": "benign", "inner_extra": [(r.choice([9, 0x0F, 0x20, 0x7F]), ch.nbytes("extra", r.choice([0, 1, 32])))], "inner_extra_pos": 2}, None
     if kind == "wrong_id_signed":
         return {"kind": "wrong_id", "id": "AA:AA:AA:AA:AA:AA", "sign_wrong_id": True}, None
     if kind == "wrong_id_unsigned":
